@@ -10,3 +10,5 @@ def regen(prop):
 DEPS['C01'] += ['routes', 'smithy_ops']
 for _p in ['C04', 'C07', 'C10', 'C16']:
     DEPS[_p] += ['routes', 'smithy_ops']
+DEPS['C13'] += ['xmlschema']
+DEPS['C13'] += ['smithy_xml']
